@@ -37,12 +37,24 @@ _FOREIGN = sorted(set(n for sp in refspec.METHODS.values()
 def shards(tier, seed):
     per = 40 if tier == 'quick' else 3000
     groups = common.split(common.ALL_INDEXES + [-1], 8)
-    return common.with_configs(
+    out = common.with_configs(
         [{'name': 'g%d' % i, 'indexes': g, 'per': per}
          for i, g in enumerate(groups)], common.ALL_CONFIGS, take=8)
+    # fresh processes whose FIRST use of the library is the abstract base
+    # classes (pamqp.base.Frame / BasicProperties, instances and classes),
+    # or the classes in another order: what is computed lazily per class must
+    # not be inherited from whoever happened to ask first
+    for i, g in enumerate(common.split(common.ALL_INDEXES + [-1], 3)):
+        out.append({'name': 'basefirst%d' % i, 'first': ['base', 'props-first',
+                                                         'reverse'][i],
+                    'indexes': g if i != 2 else list(reversed(
+                        common.ALL_INDEXES + [-1])), 'per': max(4, per // 10)})
+    return out
 
 
 def cases(shard, rnd):
+    if shard.get('first'):
+        yield {'index': None, 'state': 'first-use', 'first': shard['first']}
     for idx in shard['indexes']:
         yield {'index': idx, 'state': 'defaults'}
         for k in range(shard['per']):
@@ -196,10 +208,43 @@ def invariant(obj, cls, names, types, label, rec, case):
     return True
 
 
+def _first_use(how, rec):
+    """Use the mapping / marshal API of the abstract base classes (or of
+    Basic.Properties) before any concrete method class.  Outcomes are not
+    judged: the base classes promise nothing; the concrete classes judged
+    afterwards do."""
+    from pamqp import base, commands
+    rec.count('first_use:' + how)
+    targets = []
+    if how == 'base':
+        for cls in (base.Frame, base.BasicProperties,
+                    getattr(base, '_AMQData', None)):
+            if cls is None:
+                continue
+            targets.append(cls)
+            c = call(cls)
+            if c.ok:
+                targets.append(c.value)
+    elif how == 'props-first':
+        targets = [commands.Basic.Properties,
+                   commands.Basic.Properties(app_id='x')]
+    for t in targets:
+        for fn in (len, list, dict, iter, repr, str,
+                   lambda x: 'a' in x, lambda x: x['a'],
+                   lambda x: x.attributes(), lambda x: x.amqp_type('a'),
+                   lambda x: x.marshal(), lambda x: x.unmarshal(b''),
+                   lambda x: x.validate(), lambda x: x == x,
+                   lambda x: x.__slots__, lambda x: x.__annotations__):
+            call(fn, t)
+
+
 def run_case(case, rec):
     from pamqp import commands, header
     rec.ev()
     idx = case['index']
+    if case['state'] == 'first-use':
+        _first_use(case['first'], rec)
+        return
     if common.skip_under_config(idx):
         return
     names, types, label = _names_types(idx)
